@@ -307,7 +307,7 @@ def battery(srv, conn, root, names):
                 ans["completion@%d" % li] = sorted(i["label"] for i in (r[2] or [])) if r and r[0] == "r" else repr(r)
         out[n] = ans
     r, _ = impl.request(srv, conn, "workspace/symbol", {"query": ""})
-    out["<workspace/symbol>"] = sorted((s["name"], s["kind"], os.path.basename(s["location"]["uri"]), s["location"]["range"]["start"]["line"]) for s in (r[2] or [])) if r and r[0] == "r" else repr(r)
+    out["<workspace/symbol>"] = sorted((s["name"], s["kind"], os.path.basename(s["location"]["uri"]), s["location"]["range"]["start"]["line"], s.get("containerName") or "") for s in (r[2] or [])) if r and r[0] == "r" else repr(r)
     return out
 
 
